@@ -27,6 +27,7 @@ EXPLANATION = (
     "argmax|residual| over the whole diagonal, the residual is diag - (Mapprox + L[v]^2), the new "
     "vector is (M[pivot] - L[:v+1, pivot] . L[:v+1]) / sqrt(|residual[pivot]|). PURE-1: no "
     "gradient-blocking call inside the differentiable JAX routine. "
+    ' PAIR-4 (must pass through): no break / return lies between accumulating vector c into the tested residual (Mapprox += chol_vecs[c] * chol_vecs[c]) and counting it (c += 1); an exit there returns chol_vecs[:c], one vector short of the residual that passed the threshold. '
 )
 NOT_DECIDED = "reconstruction accuracy, differentiability and the choice of thresholds are numerical."
 TECHNIQUE = "static analysis: loop-counter interval analysis and pivot def-use pairing on the three Cholesky routines"
